@@ -1,7 +1,7 @@
 (* C06 -- Each link is validated as if it were alone.  Property theorems only. *)
 From Coq Require Import List NArith.
 From FP Require Import Model.Base Model.Rdh Model.Scanner Model.CdpRunning Model.Link Model.Collector Model.System Spec.Framing Spec.GroundTruth
-  Proofs.C03_proofs Proofs.C05_proofs Proofs.C06_proofs Proofs.C07_run Proofs.C14_proofs Proofs.C06_run Proofs.C06_filter.
+  Proofs.C03_proofs Proofs.C05_proofs Proofs.C06_proofs Proofs.C07_run Proofs.C14_proofs Proofs.C06_run Proofs.C06_filter Proofs.C06_mask.
 From FP Require Gen.Facts.
 Import ListNotations.
 Open Scope N_scope.
@@ -119,6 +119,16 @@ Print Assumptions C06_isolated.
 Print Assumptions C06_alone.
 Print Assumptions C06_independent.
 Print Assumptions C06_extraction.
+
+(* the key of the layer/stave filter (`--filter-its-stave`): two FEE ids are matched together exactly when they agree on the six stave
+   bits 5:0 and the three layer bits 14:12 of the documented FEE-id layout; the mask is re-read from the source on every run
+   (fact layer_stave_mask), so a filter that merges staves n and n+32 of a layer (seed C06-I) no longer type-checks here *)
+Theorem C06_stave_filter_key : forall a b,
+  N.land a Gen.Facts.layer_stave_mask = N.land b Gen.Facts.layer_stave_mask <->
+  (forall i, i < 6 \/ 12 <= i < 15 -> N.testbit a i = N.testbit b i).
+Proof. exact (stave_filter_key_when eq_refl). Qed.
+
 Print Assumptions C06_whole_run.
 Print Assumptions C06_whole_run_independent.
 Print Assumptions C06_filter_equivalence.
+Print Assumptions C06_stave_filter_key.
